@@ -525,6 +525,10 @@ func (bc *BlockChain) insertSidechain(chain types.Blocks) error {
 		numbers = append(numbers, parent.Number.Uint64())
 
 		parent = bc.GetHeader(parent.ParentHash, parent.Number.Uint64()-1)
+		if parent == nil {
+			// the header is missing (e.g. the write of that block was interrupted): reported below
+			break
+		}
 		local = bc.GetHeaderByNumber(parent.Number.Uint64())
 		logging.Debug("Importing sidechain get parent without state.", "number", parent.Number, "hash", parent.Hash().String())
 	}
